@@ -4,7 +4,8 @@
 #include "ref/val.h"
 #include "vlib/rt.h"
 namespace vf {
-struct GenOpts { size_t max_seq = 300; bool big = false; int handle_mode = 0; bool force_big = false; /* top-level STR/BIN: more than 64 KiB of payload */ };
+struct GenOpts { size_t max_seq = 300; bool big = false; int handle_mode = 0; bool force_big = false; /* top-level STR/BIN: more than 64 KiB of payload */
+  bool nonrepresentable_nestings = false; /* Optional<Optional<T>> engaged around empty, Result<E,Result<F,T>> value around error/empty: the format has one NIL / ERR marker (D13) */ };
 struct Gen {
   Rng& r; GenOpts o;
   explicit Gen(Rng& rng, GenOpts opts = GenOpts()) : r(rng), o(opts) {}
@@ -55,8 +56,8 @@ struct Gen {
         size_t n = r.below(depth > 0 ? 4 : 7);
         for (size_t i = 0; i < n; i++) { Val k = gen(s.kids[0], depth + 1); bool dup = false; for (size_t j = 0; j < v.kids.size(); j += 2) if (v.kids[j] == k) dup = true; if (dup) continue; v.kids.push_back(k); v.kids.push_back(gen(s.kids[1], depth + 1)); }
       } break;
-      case K::OPT: v.u = r.below(3) != 0; if (v.u) v.kids.push_back(gen(s.kids[0], depth + 1)); break;
-      case K::RES: v.u = r.below(3); if (v.u == 2) v.kids.push_back(gen(s.kids[1], depth + 1)); else if (v.u == 1) { Val e = gen(s.kids[0]); if (e.u == 0) e.u = 1; v.kids.push_back(e); } break;
+      case K::OPT: v.u = r.below(3) != 0; if (v.u) { v.kids.push_back(gen(s.kids[0], depth + 1)); if (!o.nonrepresentable_nestings && s.kids[0].k == K::OPT) { int guard = 0; while (!v.kids[0].u && guard++ < 64) v.kids[0] = gen(s.kids[0], depth + 1); if (!v.kids[0].u) { v.u = 0; v.kids.clear(); } } } break;
+      case K::RES: v.u = r.below(3); if (v.u == 2) { v.kids.push_back(gen(s.kids[1], depth + 1)); if (!o.nonrepresentable_nestings && s.kids[1].k == K::RES) { int guard = 0; while (v.kids[0].u != 2 && guard++ < 64) v.kids[0] = gen(s.kids[1], depth + 1); if (v.kids[0].u != 2) { v.u = 0; v.kids.clear(); } } } else if (v.u == 1) { Val e = gen(s.kids[0]); if (e.u == 0) e.u = 1; v.kids.push_back(e); } break;
       case K::VAR: v.u = r.below(s.kids.size() + 1); if (s.kids.size() > 100 && r.chance(1, 2)) v.u = s.kids.size() - r.below(4);   /* high indices of wide variants */ if (v.u) v.kids.push_back(gen(s.kids[v.u - 1], depth + 1)); break;
       case K::NILV: break;
       case K::HND: { static const int64_t hv[] = {-1, 0, 1, 2, 3, 100, 127, 128, 1000, 65536, 2147483647}; v.u = (uint64_t)hv[r.below(11)]; } break;   // handle values are ints
